@@ -21,6 +21,8 @@ func runC02(c *Ctx) {
 	ruleU4(c, "U4")
 	r.Rule("U6", "relative update takes the first result of the right-hand side", 2)
 	ruleU6(c, "U6")
+	r.Rule("U7", "a kind change drops the old children before the new kind is stored", 1)
+	ruleU7(c, "U7")
 	ruleL1(c, "L1", 20)
 	ruleR1(c, "R1", nil)
 }
@@ -133,6 +135,10 @@ func runC04(c *Ctx) {
 	ruleM5(c, "M5")
 	ruleM6(c, "M6")
 	rulePF(c, "M7", 20)
+	r.Rule("M8", "the `n` flag restricts the attribute update to null targets, it does not switch it off", 1)
+	ruleM8(c, "M8")
+	r.Rule("M9", "a kind change drops the old children before the new kind is stored", 1)
+	ruleU7(c, "M9")
 }
 
 func runC16(c *Ctx) {
